@@ -6,7 +6,7 @@ from lib import gpgen
 from py2v import units_chol, units_gp
 
 PROP = "C17"
-PROPS_FILES = ["Props/C17.v", "Props/C05_qei.v"]
+PROPS_FILES = ["Props/C17.v", "Props/C05_qei.v", "Props/C05_qeif.v"]
 ASSUMPTIONS = [
   "exact arithmetic over a real closed field; rounding is outside the model (searcher tolerance 1e-9 * n * |A|)",
   "LAPACK contracts: successful cholesky => L L^T = a; svd of a symmetric PSD matrix => U diag(E) U^T = a with E >= 0; qr(B, mode='r') => R^T R = B^T B",
@@ -34,8 +34,12 @@ def correspondence(ctx):
   executable model Model/ParallelEI.v (theorems in Props/C05_qei.v), tied to the running code by the exact correspondence built for C05."""
   from props import C05 as c05
   qc = c05.qei_correspondence(ctx)
-  return dict(evaluations=qc["evaluations"], distinct_nontrivial=qc["distinct"], rule=qc["rule"], samples=qc["samples"], distribution=qc["distribution"],
-              disagreements=qc["disagreements"])
+  # the same mechanism in the subclass ExpectedParallelImprovementWithFailures: one factor per MODEL (objective and every failure model) and
+  # candidate set, all driven by the same draws - Model/ParallelEIF.v (theorems in Props/C05_qeif.v), exact correspondence built for C05
+  fc = c05.qeif_correspondence(ctx)
+  return dict(evaluations=qc["evaluations"] + fc["evaluations"], distinct_nontrivial=qc["distinct"] + fc["distinct"], rule=qc["rule"] + "; " + fc["rule"],
+              samples=qc["samples"] + fc["samples"][:1], distribution=dict(qc["distribution"], **fc["distribution"]),
+              disagreements=qc["disagreements"] + fc["disagreements"])
 
 
 def build_matrix(inp):
@@ -63,10 +67,140 @@ def build_matrix(inp):
   return numpy.array(A, order=inp["order"])
 
 
+QEIREAL_STATS = {}     # how the real-model parallel-EI cases of this run ended (decided / not decided and why); reported by search()
+
+
+def _stat(key):
+  QEIREAL_STATS[key] = QEIREAL_STATS.get(key, 0) + 1
+
+
+def oracle_qeireal(inp):
+  """Parallel EI on REAL models (GP objective, 0-2 GP failure models, pending points), real compute_cholesky_for_gp_sampling, NumPy's own
+  normal draws (seeded).  A recording wrapper notes every (covariance, factor) pair the call computes.  Clauses: every factor reproduces
+  its covariance; and the estimates are what the samples  mean + L z  give, L being the factor computed for THAT model's posterior
+  covariance of THAT candidate set ++ pending points: mean over the executed draws of max(0, best - min over the points whose failure-model
+  samples are all strictly below their thresholds).  Passes in which every such term vanishes switch to a success-probability fallback (C05's
+  subject): such a case is not decided here.  Cases in which a failure-model sample sits within rounding of its threshold are skipped."""
+  import libsigopt.compute.expected_improvement as EI
+  from libsigopt.compute.probabilistic_failures import ProbabilisticFailures, ProbabilisticFailuresCDF, ProductOfListOfProbabilisticFailures
+  def fail(what, observed, expected):
+    return dict(signature=f"C17:qei-real:{what}", what=f"parallel EI on real models: {what}", input=inp, observed=observed, expected=expected,
+                oracle="recording wrapper around the factorisation + plain NumPy restatement of the sampled improvement")
+  gi = inp["gp"]
+  gp = gpgen.make_gp(gi)
+  fgps = [gpgen.make_gp(dict(gi, values=f["values"])) for f in inp["fails"]]
+  q, dim = inp["q"], len(gi["points"][0])
+  pend = numpy.array(inp["pending"], dtype=float).reshape(len(inp["pending"]), dim)
+  p, c = len(pend), q + len(pend)
+  sets = numpy.array(inp["sets"], dtype=float).reshape(len(inp["sets"]), q, dim)
+  pairs = []
+  real = EI.compute_cholesky_for_gp_sampling
+
+  def recording(cov):
+    keep = numpy.array(cov, dtype=float).copy()
+    L = real(cov)
+    pairs.append((keep, numpy.array(L, dtype=float).copy()))
+    return L
+  state = numpy.random.get_state()
+  EI.compute_cholesky_for_gp_sampling = recording
+  try:
+    if fgps:
+      pfs = [(ProbabilisticFailures if f["kind"] == "logistic" else ProbabilisticFailuresCDF)(g, f["threshold"]) for f, g in zip(inp["fails"], fgps)]
+      af = EI.ExpectedParallelImprovementWithFailures(gp, q, ProductOfListOfProbabilisticFailures(pfs), points_being_sampled=pend if p else None,
+                                                      num_mc_iterations=inp["N"], num_mc_iterations_per_loop=inp["B"])
+    else:
+      af = EI.ExpectedParallelImprovement(gp, q, points_being_sampled=pend if p else None, num_mc_iterations=inp["N"], num_mc_iterations_per_loop=inp["B"])
+    best = float(af.best_value)
+    numpy.random.seed(inp["seed"])
+    if inp.get("direct"):      # the vectorised method itself also takes one-point candidate sets as an (n, 1, dim) array
+      got = numpy.asarray(af._evaluate_at_point_list(sets), dtype=float)
+    else:
+      got = numpy.asarray(af.evaluate_at_point_list(sets if q > 1 else sets[:, 0, :]), dtype=float)
+  finally:
+    EI.compute_cholesky_for_gp_sampling = real
+    numpy.random.set_state(state)
+  for cov, L in pairs:
+    tol = 1e-9 * c * max(1e-300, float(numpy.abs(cov).max())) + 1e-300
+    if not numpy.isfinite(L).all() or float(numpy.abs(L @ L.T - cov).max()) > tol:
+      return fail("factor does not reproduce the covariance", float(numpy.abs(L @ L.T - cov).max()), f"<= {tol}")
+
+  def factor_of(cov):
+    for a, L in pairs:
+      if a.shape == cov.shape and numpy.array_equal(a, cov):
+        return L
+    return None
+  b = min(inp["B"], inp["N"])
+  passes = -(-inp["N"] // b)
+  rs = numpy.random.RandomState(inp["seed"])
+  blocks = [rs.normal(size=(b, c)) for _ in range(passes)]
+  models = [gp] + fgps
+  per_set = []
+  for k in range(len(sets)):
+    union = numpy.concatenate((sets[k], pend), axis=0)
+    ml = []
+    for m in models:
+      L = factor_of(m.compute_covariance_of_points(union))
+      if L is None:
+        return fail("no factor was computed for the posterior covariance of a model at a candidate set ++ pending points", k, "one factorisation per model and set")
+      ml.append((m.compute_mean_of_points(union), L))
+    per_set.append(ml)
+  want = numpy.zeros(len(sets))
+  scale = 1.0
+  for z in blocks:
+    terms = numpy.zeros((len(sets), b))
+    for k, ml in enumerate(per_set):
+      # (b, c) samples of every model at the c points.  The class without failure models adds L z to (best - mean), i.e. its sample is
+      # mean - L z (the same law: z and -z are equally distributed); the class with failure models forms mean + L z for every model
+      sgn = 1.0 if fgps else -1.0
+      ys = [mean[None, :] + sgn * (z @ L.T) for mean, L in ml]
+      scale = max([scale] + [float(numpy.abs(y).max()) for y in ys])
+      feas = numpy.ones((b, c), dtype=bool)
+      for y, f in zip(ys[1:], inp["fails"]):
+        if float(numpy.abs(y - f["threshold"]).min()) < 1e-9 * (1.0 + float(numpy.abs(y).max())):
+          _stat("undecided:sample-on-threshold")
+          return None     # a sample within rounding of its threshold: the indicator is not decided by this oracle
+        feas &= y < f["threshold"]
+      imp = numpy.where(feas, best - ys[0], 0.0)
+      terms[k] = numpy.maximum(0.0, imp.max(axis=1))
+    if fgps and float(terms.sum()) == 0.0:
+      _stat("undecided:pass-falls-back")
+      return None       # the whole pass vanishes: the library switches to its success-probability fallback (C05), not decided here
+    want += terms.sum(axis=1)
+  want /= passes * b
+  tol = 1e-9 * (1.0 + scale + abs(best))
+  if got.shape != want.shape or not numpy.isfinite(got).all() or float(numpy.abs(got - want).max()) > tol:
+    return fail("the estimate is not the mean sampled improvement of mean + L z with each model's own factor", got.tolist(), want.tolist())
+  _stat(f"decided:models={len(models)}:points={c}" + (":positive" if float(want.max()) > 0 else ":zero"))
+  return None
+
+
+def gen_qeireal(rng):
+  gi = gpgen.gen_gp_input(rng, well_conditioned=True, allow_multitask=False, max_n=6, caller_writes=True)
+  dim, n = len(gi["points"][0]), len(gi["points"])
+  gi["xs"] = []
+  lo, hi = min(gi["values"]), max(gi["values"])
+  fails = [dict(values=[rng.uniform(-1, 1) for _ in range(n)], threshold=rng.uniform(-0.2, 0.9), kind=rng.choice(["logistic", "cdf"]))
+           for _ in range(rng.choice([0, 1, 1, 1, 2]))]
+  q, p = rng.choice([1, 1, 2, 3]), rng.choice([0, 1, 1, 2])
+  pending = [[rng.uniform(-0.1, 1.1) for _ in range(dim)] for _ in range(p)]
+  sets = [[[rng.uniform(-0.1, 1.1) for _ in range(dim)] for _ in range(q)] for _ in range(rng.randint(1, 3))]
+  r = rng.random()
+  if r < 0.2 and p:
+    sets[0][0] = list(pending[0])          # a candidate coincides with a pending point: singular joint covariance (SVD + QR factor)
+  elif r < 0.35 and q >= 2:
+    sets[-1][1] = list(sets[-1][0])        # a point repeated inside a candidate set
+  elif r < 0.45:
+    sets[0][0] = list(gi["points"][0])     # a candidate on a training point
+  return dict(kind="qeireal", gp=gi, fails=fails, q=q, pending=pending, sets=sets, N=rng.choice([12, 16, 40]), B=rng.choice([5, 16, 64]),
+              direct=rng.random() < 0.3, seed=rng.randrange(2 ** 31))
+
+
 def oracle(inp):
   from libsigopt.compute.python_utils import compute_cholesky_for_gp_sampling
   def fail(what, observed, expected):
     return dict(signature=f"C17:{what}", what=what, input=inp, observed=observed, expected=expected, oracle="L L^T against an untouched copy / sample moments")
+  if inp["kind"] == "qeireal":
+    return oracle_qeireal(inp)
   if inp["kind"] == "samples":
     gi = inp["gp"]
     gp = gpgen.make_gp(gi)
@@ -76,7 +210,13 @@ def oracle(inp):
     if inp.get("sum"):
       from libsigopt.compute.gaussian_process_sum import GaussianProcessSum
       gp2 = gpgen.make_gp(dict(gi, values=list(reversed(gi["values"]))))
-      model = GaussianProcessSum([gp, gp2], inp["sum"])
+      if inp.get("weights_inplace"):    # the sum holds the caller's weight array by reference: it is the model with the weights that array holds NOW
+        warr = numpy.array([3.0 * w + 1.0 for w in inp["sum"]], dtype=float)
+        model = GaussianProcessSum([gp, gp2], warr)
+        _ = model.compute_mean_of_points(xs), model.compute_covariance_of_points(xs)
+        warr[:] = inp["sum"]
+      else:
+        model = GaussianProcessSum([gp, gp2], inp["sum"])
     else:
       model = gp
     numpy.random.seed(inp["seed"])
@@ -102,6 +242,15 @@ def oracle(inp):
       xs = numpy.array(gp.points_sampled, dtype=float)
     S = model.draw_posterior_samples(N) if training else model.draw_posterior_samples_of_points(N, xs)
     mean, cov = model.compute_mean_of_points(xs), model.compute_covariance_of_points(xs)
+    if not (inp.get("steps") or []) or all(st == "draw" for st in inp["steps"]):
+      # the data are still those of the input: the posterior mean and covariance "of the model" are then also known independently of the library
+      # (gpgen's saddle-point closed form; a weighted sum of independent GPs has the weighted mean and the squared-weight covariance).  The bands
+      # below are statistical (6 sigma at N draws), far wider than the closed form's rounding
+      ws, gis = (inp["sum"], [gi, dict(gi, values=list(reversed(gi["values"])))]) if inp.get("sum") else ([1.0], [gi])
+      refs = [gpgen.reference_posterior(dict(g, xs=xs.tolist())) for g in gis]
+      if max(r[3] for r in refs) < 1e9:
+        mean = sum(w * r[0] for w, r in zip(ws, refs))
+        cov = sum(w * w * r[2] for w, r in zip(ws, refs))
     sd = numpy.sqrt(numpy.maximum(numpy.diag(cov), 0))
     tol_mean = 6 * sd / numpy.sqrt(N) + 1e-6 * (1 + numpy.abs(mean))
     if (numpy.abs(S.mean(axis=0) - mean) > tol_mean).any():
@@ -124,7 +273,7 @@ def oracle(inp):
 
 def gen_input(rng, samples_ok):
   if samples_ok and rng.random() < 0.1:
-    gi = gpgen.gen_gp_input(rng, well_conditioned=True, allow_multitask=False, max_n=6)
+    gi = gpgen.gen_gp_input(rng, well_conditioned=True, allow_multitask=False, max_n=6, caller_writes=True)
     dim = len(gi["points"][0])
     if rng.random() < 0.4:     # noise-free history, with or without a nugget standing in for the noise
       gi["noise"] = [0.0] * len(gi["noise"])
@@ -132,6 +281,7 @@ def gen_input(rng, samples_ok):
     k = rng.randint(1, 2)
     return dict(kind="samples", gp=gi, seed=rng.randrange(10 ** 6), draws=4000, repeat_point=rng.random() < 0.4,
                 sum=[rng.choice([rng.uniform(0.2, 0.8), -rng.uniform(0.2, 0.8), 0.0]), rng.uniform(0.2, 0.8)] if rng.random() < 0.3 else None,
+                weights_inplace=rng.random() < 0.4,
                 entry=rng.choice(["of_points", "of_points", "training"]), steps=rng.choice([[], [], ["draw"], ["draw", "append_lie"], ["draw", "update"]]),
                 extra_points=[[rng.uniform(0, 1) for _ in range(dim)] for _ in range(k)], extra_values=[rng.uniform(-1, 1) for _ in range(k)])
   n = rng.randint(1, 9)
@@ -143,14 +293,25 @@ def gen_input(rng, samples_ok):
 def search(ctx, hints, broken):
   fails, n = [], 0
   from props import C05 as c05
-  qin = [h["input"] for h in hints if isinstance(h.get("input"), dict) and h["input"].get("kind") == "qei"]
-  for inp in qin + [c05.gen_qei_case(ctx.rng) for _ in range(ctx.n(40, 600))]:   # parallel EI: per-set factor / means / draws (exact Fractions oracle)
+  qin = [h["input"] for h in hints if isinstance(h.get("input"), dict) and h["input"].get("kind") in ("qei", "qeif")]
+  # parallel EI, with and without failure models: per-model / per-set factor, means and draws (exact Fractions oracle on scripted posteriors)
+  for inp in (qin + [c05.gen_qei_case(ctx.rng) for _ in range(ctx.n(40, 600))] + [c05.gen_qeif_case(ctx.rng) for _ in range(ctx.n(40, 600))]):
     n += 1
-    r = c05.qei_oracle(inp)
-    if r:
-      r = dict(r, signature=r["signature"].replace("C05:", "C17:", 1))
-      if r["signature"] not in {f["signature"] for f in fails}:
-        fails.append(r)
+    r = scripted_qei_oracle(inp)
+    if r and r["signature"] not in {f["signature"] for f in fails}:
+      fails.append(r)
+  for _ in range(ctx.n(60, 900)):        # the same on real GPs with the real factorisation (recording wrapper)
+    inp = gen_qeireal(ctx.rng)
+    n += 1
+    try:
+      r = oracle(inp)
+    except numpy.linalg.LinAlgError:
+      continue
+    except Exception as e:
+      r = dict(signature=f"C17:qei-real:raises:{type(e).__name__}", what=f"parallel EI on real models raised {type(e).__name__}: {e}", input=inp, observed=repr(e),
+               expected="one estimate per candidate set", oracle="no exception")
+    if r and r["signature"] not in {f["signature"] for f in fails}:
+      fails.append(r)
   for _ in range(ctx.n(800, 12000) * (3 if broken else 1)):
     inp = gen_input(ctx.rng, True)
     n += 1
@@ -162,18 +323,34 @@ def search(ctx, hints, broken):
       fails.append(r)
       if len(fails) >= 3:
         break
-  return dict(evaluations=n, failures=fails, oracle="max|L L^T - A| against an untouched copy; 6-sigma sample-moment bands",
-              samples=[dict(kind="lowrank", n=4, rank=2, order="F")])
+  return dict(evaluations=n, failures=fails, oracle="max|L L^T - A| against an untouched copy; 6-sigma sample-moment bands; parallel EI (scripted posteriors: "
+              "exact rationals; real models: recorded factors + NumPy restatement)",
+              samples=[dict(kind="lowrank", n=4, rank=2, order="F"), dict(kind="qeireal-outcomes", counts=dict(QEIREAL_STATS))])
+
+
+def scripted_qei_oracle(inp):
+  """C05's exact oracles on scripted posteriors, read for C17 (which factor multiplies which draws, for which model and candidate set); the
+  instance of C05's registered finding (whole-pass fallback) is C05's business, not a statement about the factor"""
+  from props import C05 as c05
+  if inp.get("regime") == "fallback-finding":
+    return None
+  r = c05.qeif_oracle(inp) if inp["kind"] == "qeif" else c05.qei_oracle(inp)
+  return dict(r, signature=r["signature"].replace("C05:", "C17:", 1)) if r else None
 
 
 def replay(ctx, payload):
-  if isinstance(payload.get("input"), dict) and payload["input"].get("kind") == "qei":
-    from props import C05 as c05
-    r = c05.qei_oracle(payload["input"])
-    return dict(r, signature=r["signature"].replace("C05:", "C17:", 1)) if r else None
+  if isinstance(payload.get("input"), dict) and payload["input"].get("kind") in ("qei", "qeif"):
+    return scripted_qei_oracle(payload["input"])
   return oracle(payload["input"])
 
 # --- second build round: additions to the claimed level
 LEVEL_TEXT += ("; the parallel-EI loop (which factor, means and draws each candidate set gets) is the executable model Model/ParallelEI.v with theorems "
                "Props/C05_qei.v, tied to the running _evaluate_at_point_list by an exact correspondence on a stub predictor")
 TECHNIQUE += " + in-Coq differential correspondence for the parallel-EI loop"
+
+# --- gap round A: the factor mechanism in the subclass with failure models
+LEVEL_TEXT += ("; likewise for ExpectedParallelImprovementWithFailures, where every failure model has its own factor per candidate set and all models share "
+               "the draws: Model/ParallelEIF.v, theorems Props/C05_qeif.v (the sample of model i at point j is (m_i + L_i z)_j), exact correspondence on the "
+               "real class; searcher: the same statement on real GPs with the real factorisation (recorded factors, seeded NumPy draws)")
+LEVEL_NOTE += ("; sample moments are compared with the posterior mean / covariance of an independent closed form (gpgen saddle point) whenever the data are "
+               "those of the input, with the library's own otherwise; sums of GPs also with a weight array rewritten in place after construction")
